@@ -122,6 +122,7 @@ def build(spec):
         else:
             raise ValueError("unknown record kind %r" % k)
         a = a * amp
+    a = np.where(np.abs(a) < 1e-200, 0.0, a)  # no subnormal / near-underflow samples (see _fl): recipes can produce them too
     if spec.get("lead0"):
         a = np.concatenate([np.zeros(spec["lead0"]), a])
     if spec.get("trail0"):
